@@ -431,21 +431,31 @@ func keyExchange(klen int, ida, idb []byte, pri *PrivateKey, pub *PublicKey, rpr
 	if err != nil {
 		return
 	}
-	k, ok := kdf(klen, vx.Bytes(), vy.Bytes(), za, zb)
+	// coordinates enter the KDF and the hashes as 32-byte strings (GM/T 0003.3)
+	xv, yv := leftPad32(vx.Bytes()), leftPad32(vy.Bytes())
+	k, ok := kdf(klen, xv, yv, za, zb)
 	if !ok {
 		err = errors.New("kdf: zero key")
 		return
 	}
-	h1 := BytesCombine(vx.Bytes(), za, zb, rpub.X.Bytes(), rpub.Y.Bytes(), rpri.X.Bytes(), rpri.Y.Bytes())
+	// (x1, y1) is the initiator's ephemeral point RA, (x2, y2) the responder's RB
+	x1, y1 := leftPad32(rpri.X.Bytes()), leftPad32(rpri.Y.Bytes())
+	x2, y2 := leftPad32(rpub.X.Bytes()), leftPad32(rpub.Y.Bytes())
 	if !thisISA {
-		h1 = BytesCombine(vx.Bytes(), za, zb, rpri.X.Bytes(), rpri.Y.Bytes(), rpub.X.Bytes(), rpub.Y.Bytes())
+		x1, y1, x2, y2 = x2, y2, x1, y1
 	}
-	hash := sm3.Sm3Sum(h1)
-	h2 := BytesCombine([]byte{0x02}, vy.Bytes(), hash)
-	S1 := sm3.Sm3Sum(h2)
-	h3 := BytesCombine([]byte{0x03}, vy.Bytes(), hash)
-	S2 := sm3.Sm3Sum(h3)
+	hash := sm3.Sm3Sum(BytesCombine(xv, za, zb, x1, y1, x2, y2))
+	S1 := sm3.Sm3Sum(BytesCombine([]byte{0x02}, yv, hash))
+	S2 := sm3.Sm3Sum(BytesCombine([]byte{0x03}, yv, hash))
 	return k, S1, S2, nil
+}
+
+// leftPad32 left-pads a big-endian integer encoding to the 32-byte field size.
+func leftPad32(b []byte) []byte {
+	if n := len(b); n < 32 {
+		b = append(zeroByteSlice()[:32-n], b...)
+	}
+	return b
 }
 
 func msgHash(za, msg []byte) (*big.Int, error) {
